@@ -438,6 +438,8 @@ def evaluate(case, BH=None):
         s = size_of(case)
         if dist < 0.99e-3 * s:
             return {"status": "skipped", "why": "closer than 1e-3 of the source size"}
+        if dist > 1.01e3 * s:
+            return {"status": "skipped", "why": "farther than 1e3 source sizes"}
         if case["cls"] in ("Triangle", "Tetrahedron", "TriangularMesh") and edge_angle(case, ol) < TRI_EDGE_CONE:
             # the integral is not judged here (documented precision loss), the interior term still is:
             # B - mu0 H must be J inside and 0 outside whatever the rounding of the surface integral
@@ -526,12 +528,19 @@ def _pol(rng):
     """polarization / moment: generic, or with zero components (axial / transversal only)"""
     k = rng.random()
     v = _r3(rng)
-    if k < 0.15:
+    if k < 0.12:
         v = [0.0, 0.0, v[2]]
-    elif k < 0.3:
+    elif k < 0.24:
         v = [v[0], v[1], 0.0]
-    elif k < 0.4:
+    elif k < 0.32:
         v = [v[0], 0.0, 0.0]
+    elif k < 0.40:
+        v = [0.0, v[1], 0.0]
+    elif k < 0.46:                         # exactly +-1 along one axis
+        v = [0.0, 0.0, 0.0]
+        v[rng.randrange(3)] = rng.choice([-1.0, 1.0])
+    elif k < 0.48:                         # no excitation at all: the field must vanish
+        return [0.0, 0.0, 0.0]
     s = _logu(rng, 0.01, 2.0)
     return [s * x for x in v]
 
@@ -561,18 +570,32 @@ def _l_prism():
 def gen_params(rng, cls):
     # overall length scale of the source: mostly 0.05..20, one case in five small in absolute terms
     # (1e-9..1e-2: micro / nano structures given in SI metres; every formula is scale invariant)
-    sc = _logu(rng, 0.05, 20.0) if rng.random() < 0.8 else _logu(rng, 1e-9, 1e-2)
+    ks = rng.random()
+    sc = _logu(rng, 0.05, 20.0) if ks < 0.7 else _logu(rng, 1e-9, 1e-2) if ks < 0.9 else _logu(rng, 1e2, 1e4)
     if cls == "Cuboid":
-        return {"polarization": _pol(rng), "dimension": [sc * _logu(rng, 0.3, 3.0) for _ in range(3)]}
+        dim = [sc * _logu(rng, 0.3, 3.0) for _ in range(3)]
+        ka = rng.random()
+        if ka < 0.15:                      # rod: one long axis (each axis in turn)
+            dim[rng.randrange(3)] *= _logu(rng, 5, 50)
+        elif ka < 0.3:                     # plate: one short axis
+            dim[rng.randrange(3)] /= _logu(rng, 5, 50)
+        return {"polarization": _pol(rng), "dimension": dim}
     if cls == "Cylinder":
-        return {"polarization": _pol(rng), "dimension": [sc * _logu(rng, 0.3, 3.0), sc * _logu(rng, 0.3, 3.0)]}
+        dim = [sc * _logu(rng, 0.3, 3.0), sc * _logu(rng, 0.3, 3.0)]
+        ka = rng.random()
+        if ka < 0.15:
+            dim[1] *= _logu(rng, 5, 50)    # needle
+        elif ka < 0.3:
+            dim[1] /= _logu(rng, 5, 50)    # disc
+        return {"polarization": _pol(rng), "dimension": dim}
     if cls == "CylinderSegment":
         r2 = sc * _logu(rng, 0.5, 2.0)
-        r1 = 0.0 if rng.random() < 0.25 else r2 * rng.uniform(0.1, 0.85)
+        kr = rng.random()
+        r1 = 0.0 if kr < 0.25 else r2 * rng.uniform(0.1, 0.85) if kr < 0.85 else r2 * rng.uniform(0.95, 0.995)   # thin shell
         # section angles anywhere in the documented range [-360, 360], in particular phi1 < -180
         # (the body then covers positive atan2 azimuths through the phi - 360 alias)
         a1 = rng.choice([0.0, -90.0, 30.0, -270.0, -200.0, rng.uniform(-180, 180), rng.uniform(-360, -180)])
-        span = rng.choice([360.0, 180.0, 90.0, rng.uniform(20, 340)])
+        span = rng.choice([360.0, 180.0, 90.0, rng.uniform(20, 340), rng.uniform(350.0, 359.9), rng.uniform(1.0, 10.0)])
         a2 = a1 + span
         if a2 > 360.0:
             a1, a2 = a1 - (a2 - 360.0), 360.0
@@ -586,6 +609,8 @@ def gen_params(rng, cls):
             V = np.array([_r3(rng) for _ in range(4)]) * sc
             vol = abs(np.linalg.det(V[1:] - V[0])) / 6
             if vol > 0.02 * sc ** 3:
+                if rng.random() < 0.3:
+                    V = V + np.array(_r3(rng)) * sc * _logu(rng, 1, 30)     # body off its local origin
                 return {"polarization": _pol(rng), "vertices": V.tolist()}
     if cls == "TriangularMesh":
         k = rng.random()
@@ -605,14 +630,18 @@ def gen_params(rng, cls):
             V, F = P, h.simplices.tolist()
         # random (inconsistent) winding: the class reorients faces itself
         F = [f if rng.random() < 0.5 else [f[0], f[2], f[1]] for f in F]
+        if rng.random() < 0.3:
+            V = np.asarray(V, float) + np.array(_r3(rng)) * sc * _logu(rng, 1, 30)   # mesh off its local origin
         return {"polarization": _pol(rng), "vertices": np.asarray(V, float).tolist(), "faces": F}
     if cls == "Triangle":
         while True:
             V = np.array([_r3(rng) for _ in range(3)]) * sc
             if np.linalg.norm(np.cross(V[1] - V[0], V[2] - V[0])) > 0.1 * sc ** 2:
+                if rng.random() < 0.3:
+                    V = V + np.array(_r3(rng)) * sc * _logu(rng, 1, 30)
                 return {"polarization": _pol(rng), "vertices": V.tolist()}
     if cls == "Circle":
-        return {"current": rng.choice([1.0, -1.0]) * _logu(rng, 0.01, 100.0), "diameter": sc}
+        return {"current": 0.0 if rng.random() < 0.03 else rng.choice([1.0, -1.0]) * _logu(rng, 0.01, 100.0), "diameter": sc}
     if cls == "Polyline":
         n = rng.randint(2, 5)
         V = [np.array(_r3(rng)) * sc]
@@ -632,7 +661,8 @@ def gen_params(rng, cls):
             off = np.round(_unit(rng) * sc * _logu(rng, 1e3, 3e6), 0 if sc > 1e-3 else 12)
             if np.all(np.isfinite(off)):
                 V = [v + off for v in V]
-        return {"current": rng.choice([1.0, -1.0]) * _logu(rng, 0.01, 100.0), "vertices": [v.tolist() for v in V]}
+        return {"current": 0.0 if rng.random() < 0.03 else rng.choice([1.0, -1.0]) * _logu(rng, 0.01, 100.0),
+                "vertices": [v.tolist() for v in V]}
     if cls == "Dipole":
         return {"moment": _pol(rng)}
     raise ValueError(cls)
@@ -796,15 +826,24 @@ def gen_observer(rng, case, kind):
     raise ValueError(kind)
 
 
+def gen_pose(rng, case):
+    """identity (25 %), exact half / quarter turns about a coordinate axis (15 %), generic"""
+    k = rng.random()
+    if k < 0.25:
+        return [0.0, 0.0, 0.0], [0.0, 0.0, 0.0]
+    pos = [x * size_of(case) * 3 for x in _r3(rng)]
+    if k < 0.40:
+        rv = [0.0, 0.0, 0.0]
+        rv[rng.randrange(3)] = rng.choice([math.pi, -math.pi, math.pi / 2, -math.pi / 2])
+        return pos, rv
+    return pos, (_unit(rng) * rng.uniform(0.1, 3.1)).tolist()
+
+
 def gen_case(rng, cls, kind=None):
     for _ in range(50):
         case = {"cls": cls, "params": gen_params(rng, cls)}
         k = kind or rng.choice(KINDS[cls])
-        if rng.random() < 0.25:
-            case["pos"], case["rotvec"] = [0.0, 0.0, 0.0], [0.0, 0.0, 0.0]
-        else:
-            case["pos"] = [x * size_of(case) * 3 for x in _r3(rng)]
-            case["rotvec"] = (_unit(rng) * rng.uniform(0.1, 3.1)).tolist()
+        case["pos"], case["rotvec"] = gen_pose(rng, case)
         try:
             o = np.asarray(gen_observer(rng, case, k), float)
         except Exception:   # pylint: disable=broad-except
@@ -840,13 +879,20 @@ def edge_angle(case, o):
     return best
 
 
+def local_obs(case):
+    """the observer in the source frame as the implementation receives it: through the pose and back
+    (an observer placed exactly on the axis is, after a generic pose, only on it up to rounding)"""
+    M = rotmat(case["rotvec"])
+    return M.T @ (global_obs(case) - np.asarray(case["pos"], float))
+
+
 def region(case):
     """coarse, geometry-derived description of where the observer is (used in signatures):
-    inside|outside, then the special zone(s) it lies in (on-axis, small-r, edge-extension, small-scale =
+    inside|outside, then the special zone(s) it lies in (on-axis, tiny-r [CylinderSegment, r/r2 < 1e-2], small-r, edge-extension, small-scale =
     source smaller than 1e-3 in absolute numbers) or, when in none, the distance class near (<0.1 size)
     | mid | far (>10 size)"""
     c, p = case["cls"], case["params"]
-    o = np.asarray(case["obs_local"], float)
+    o = local_obs(case)
     inside, dist = inside_and_dist(case, o)
     s = size_of(case)
     tags = ["inside" if inside else "outside"]
@@ -855,7 +901,9 @@ def region(case):
         r = math.hypot(o[0], o[1])
         if r == 0:
             tags.append("on-axis")
-        elif r < 0.05 * R:
+        elif c == "CylinderSegment" and r < 1e-2 * R:
+            tags.append("tiny-r")       # r/r2 < 1e-2: the zone of the recorded near-axis instability, kept apart from
+        elif r < 0.05 * R:              # the rest of the small-r zone so that the open finding cannot absorb other defects
             tags.append("small-r")
     if edge_angle(case, o) < 1e-3:
         tags.append("edge-extension")
@@ -888,7 +936,7 @@ def tolerance(case):
     worst deviations measured on the unchanged tree outside the recorded findings stay a decade
     below these bounds (see C01.meta.json)."""
     c = case["cls"]
-    o = np.asarray(case["obs_local"], float)
+    o = local_obs(case)
     _, dist = inside_and_dist(case, o)
     s = size_of(case)
     x = max(np.linalg.norm(o - centre_of(case)), s) / s          # distance in source sizes
@@ -899,6 +947,10 @@ def tolerance(case):
     # CylinderSegment 1e-4 @10 .. 1.2e-1 @1e3 sizes
     if c == "CylinderSegment":
         tol = 1e-3 + 3e-4 * x
+        # `close the z-axis`: outside the tiny-r zone of the recorded finding the loss still grows towards the axis
+        # (measured 5.5e-3 at r/r2 = 0.04, z = 28 r2 for a thin shell): allow 0.1/(r/r2) times more below r/r2 = 0.1
+        rr2 = math.hypot(o[0], o[1]) / case["params"]["dimension"][1]
+        tol *= max(1.0, 0.1 / max(rr2, 1e-2))
     elif c in ("Cuboid", "Cylinder"):
         tol += 1e4 * EPS * x ** 3
         if c == "Cylinder":
@@ -988,11 +1040,7 @@ def json_copy(x):
 def gen_batch(rng, cls, nrows=24):
     for _ in range(20):
         case = {"cls": cls, "params": gen_params(rng, cls)}
-        if rng.random() < 0.25:
-            case["pos"], case["rotvec"] = [0.0, 0.0, 0.0], [0.0, 0.0, 0.0]
-        else:
-            case["pos"] = [x * size_of(case) * 3 for x in _r3(rng)]
-            case["rotvec"] = (_unit(rng) * rng.uniform(0.1, 3.1)).tolist()
+        case["pos"], case["rotvec"] = gen_pose(rng, case)
         kinds = [k for k in dict.fromkeys(KINDS[cls]) if k != "aligned"]     # 'aligned' may rewrite the source
         rows, rk = [], []
         s = size_of(case)
@@ -1070,4 +1118,177 @@ def judge_batch(bcase, results):
                     f"in one call with {len(keep) - 1} other observer(s) (row {keep.index(i)} of the replay batch; alone the same "
                     f"observer is {'fine' if not f1 else 'failing differently: ' + str(sig1)}): " + what,
                     {"kind": "field-batch", "batch": b2, "row": keep.index(i)}))
+    return out
+
+
+# =========================================================================== other entry points
+# The property is observed at magpylib.getB / getH and at magpylib.core.*: the same (source, observer) through the
+# functional interface, a Sensor, a Collection, the top-level function and - where a core function takes the same
+# quantities - magpylib.core, each judged against the same first-principles value.
+def entry_values(case):
+    """{entry name: (B, H)} in the GLOBAL frame for one case"""
+    import magpylib as magpy
+    from scipy.spatial.transform import Rotation as R
+    p, c = case["params"], case["cls"]
+    og = global_obs(case)
+    src = build(case)
+    M = rotmat(case["rotvec"])
+    ol = M.T @ (og - np.asarray(case["pos"], float))
+    out = {}
+    kw = dict(position=np.array(case["pos"], float), orientation=R.from_rotvec(case["rotvec"]))
+    if c == "TriangularMesh":
+        par = {"mesh": src.mesh, "polarization": np.array(p["polarization"], float)}
+    else:
+        par = {k: np.array(v, float) if isinstance(v, list) else v for k, v in p.items()}     # ndarray instead of list inputs
+    out["functional"] = (magpy.getB(c, og, **par, **kw), magpy.getH(c, og, **par, **kw))
+    sens = magpy.Sensor(position=og)
+    out["sensor"] = (sens.getB(src), sens.getH(src))
+    coll = magpy.Collection(src)
+    out["collection"] = (coll.getB(og), coll.getH(og))
+    out["toplevel"] = (magpy.getB(src, [og]), magpy.getH([src], og))       # list-wrapped observer / source
+    Boo, Hoo = np.asarray(src.getB(og), float), np.asarray(src.getH(og), float)
+    o1 = ol[None, :]
+    core = magpy.core
+    if c == "Cuboid":
+        Bc = core.magnet_cuboid_Bfield(o1, np.array([p["dimension"]], float), np.array([p["polarization"]], float))[0]
+        out["core"] = (M @ Bc, Hoo)
+    elif c == "Sphere":
+        Bc = core.magnet_sphere_Bfield(o1, np.array([p["diameter"]], float), np.array([p["polarization"]], float))[0]
+        out["core"] = (M @ Bc, Hoo)
+    elif c == "Dipole":
+        Hc = core.dipole_Hfield(o1, np.array([p["moment"]], float))[0]
+        out["core"] = (Boo, M @ Hc)
+    elif c == "Triangle":
+        Bc = core.triangle_Bfield(o1, np.array([p["vertices"]], float), np.array([p["polarization"]], float))[0]
+        out["core"] = (M @ Bc, Hoo)
+    elif c == "Polyline":
+        V = np.asarray(p["vertices"], float)
+        keep = [i for i in range(len(V) - 1) if not np.all(V[i] == V[i + 1])]
+        if keep:
+            Hc = core.current_polyline_Hfield(np.repeat(o1, len(keep), axis=0), V[keep], V[[i + 1 for i in keep]],
+                                              np.full(len(keep), float(p["current"]))).sum(axis=0)
+            out["core"] = (Boo, M @ Hc)
+    elif c == "Circle" and (ol[0] != 0 or ol[1] != 0) and p["diameter"] != 0:
+        r, ph = math.hypot(ol[0], ol[1]), math.atan2(ol[1], ol[0])
+        Hr, _, Hz = core.current_circle_Hfield(np.array([abs(p["diameter"]) / 2]), np.array([r]), np.array([ol[2]]),
+                                               np.array([float(p["current"])]))[:, 0]
+        out["core"] = (Boo, M @ np.array([Hr * math.cos(ph), Hr * math.sin(ph), Hz]))
+    return {k: (np.asarray(b, float).reshape(-1)[:3] if np.size(b) == 3 else np.asarray(b, float),
+                np.asarray(h, float).reshape(-1)[:3] if np.size(h) == 3 else np.asarray(h, float)) for k, (b, h) in out.items()}
+
+
+def judge_entries(case):
+    """failures [(signature, text, replay)] of the other entry points on a case whose plain src.getB/getH is fine"""
+    import warnings
+    warnings.simplefilter("ignore")
+    base = evaluate(case)
+    if base["status"] != "ok" or judge(case, base)[0]:
+        return []                       # not judged, or already reported through the object-oriented path
+    out = []
+    try:
+        vals = entry_values(case)
+    except Exception as e:   # pylint: disable=broad-except
+        return [(f"raises/{case['cls']}:via-entry", f"valid input raised through another entry point: {type(e).__name__}: {e}",
+                 {"kind": "field-entry", "case": case})]
+    for name, (B, H) in vals.items():
+        if np.shape(B) != (3,) or np.shape(H) != (3,):
+            out.append((f"shape/{case['cls']}:via-{name}", f"entry {name} returned shapes {np.shape(B)}/{np.shape(H)} for one source and one observer",
+                        {"kind": "field-entry", "case": case, "entry": name}))
+            continue
+        r = evaluate(case, BH=(B, H))
+        f, sig, what = judge(case, r)
+        if f:
+            out.append((f"{sig}:via-{name}", f"through the {name} entry point (src.getB/getH on the same input is fine): " + what,
+                        {"kind": "field-entry", "case": case, "entry": name}))
+    return out
+
+
+# =========================================================================== several sources in one call
+def gen_multi(rng):
+    """6 sources in ONE getB(sources, observers, sumup=False) call: class A, class B, a TWIN of the first (same geometry
+    and pose, excitation scaled by 1e6..1e12 or its inverse), an exact DUPLICATE of the first, class C, class A with another
+    geometry - so the per-class grouping is a non-trivial permutation - and 6 observers placed relative to different sources"""
+    A, B, C = rng.sample(CLASSES, 3)
+    def mk(cls):
+        c = {"cls": cls, "params": gen_params(rng, cls)}
+        c["pos"], c["rotvec"] = gen_pose(rng, c)
+        return c
+    s0 = mk(A)
+    base = size_of(s0)
+    def near(c):            # keep the sources within a few sizes of the first so that observers are admissible for several
+        c["pos"] = [p0 + x * base * 4 for p0, x in zip(s0["pos"], _r3(rng))]
+        return c
+    twin = json_copy(s0)
+    f = 10 ** rng.uniform(6, 12)
+    if rng.random() < 0.5:
+        f = 1 / f
+    for key in ("polarization", "moment"):
+        if key in twin["params"]:
+            twin["params"][key] = [v * f for v in twin["params"][key]]
+    if "current" in twin["params"]:
+        twin["params"]["current"] *= f
+    srcs = [s0, near(mk(B)), twin, json_copy(s0), near(mk(C)), near(mk(A))]
+    obs = []
+    for k in (0, 0, 1, 4, 5, 5):
+        c = srcs[k]
+        for _ in range(30):
+            kind = rng.choice([x for x in KINDS[c["cls"]] if x not in ("aligned", "far")])
+            try:
+                o = np.asarray(gen_observer(rng, c, kind), float)
+            except Exception:   # pylint: disable=broad-except
+                continue
+            _, dist = inside_and_dist(c, o)
+            if np.all(np.isfinite(o)) and 1e-3 * size_of(c) <= dist <= 1e3 * size_of(c):
+                obs.append((rotmat(c["rotvec"]) @ o + np.asarray(c["pos"], float)).tolist())
+                break
+    return {"sources": srcs, "observers": obs}
+
+
+def evaluate_multi(mc, src_idx=None, obs_idx=None):
+    import warnings
+    import magpylib as magpy
+    warnings.simplefilter("ignore")
+    si = list(range(len(mc["sources"]))) if src_idx is None else list(src_idx)
+    oi = list(range(len(mc["observers"]))) if obs_idx is None else list(obs_idx)
+    srcs = [build(mc["sources"][i]) for i in si]
+    og = np.array([mc["observers"][j] for j in oi], float)
+    B = np.asarray(magpy.getB(srcs, og, sumup=False, squeeze=False), float).reshape(len(si), len(oi), 3)
+    H = np.asarray(magpy.getH(srcs, og, sumup=False, squeeze=False), float).reshape(len(si), len(oi), 3)
+    res = []
+    for a, i in enumerate(si):
+        c0 = mc["sources"][i]
+        M = rotmat(c0["rotvec"])
+        for b, j in enumerate(oi):
+            rc = dict(c0)
+            rc["obs_local"] = (M.T @ (og[b] - np.asarray(c0["pos"], float))).tolist()
+            rc["kind"] = "multi"
+            res.append((i, j, rc, evaluate(rc, BH=(B[a, b], H[a, b]))))
+    return res
+
+
+def judge_multi(mc, results):
+    out = []
+    for i, j, rc, r in results:
+        failed, sig, what = judge(rc, r)
+        if not failed:
+            continue
+        alone = evaluate(rc)
+        f1, sig1, what1 = judge(rc, alone)
+        if f1 and sig1 == sig:
+            out.append((sig, what1, {"kind": "field-case", "case": rc}))
+            continue
+        keep = None
+        for k in range(len(mc["sources"])):
+            if k == i:
+                continue
+            sub = evaluate_multi(mc, src_idx=sorted([i, k]), obs_idx=[j])
+            if any(ii == i and judge(c2, r2)[0] and judge(c2, r2)[1] == sig for ii, _, c2, r2 in sub):
+                keep = sorted([i, k])
+                break
+        keep = keep if keep is not None else list(range(len(mc["sources"])))
+        m2 = {"sources": [mc["sources"][k] for k in keep], "observers": [mc["observers"][j]] if keep != list(range(len(mc["sources"]))) else mc["observers"]}
+        out.append((sig + ":multi-source",
+                    f"source {keep.index(i)} of {len(keep)} evaluated in one getB/getH(sources, observers, sumup=False) call "
+                    f"(alone the same source and observer are {'fine' if not f1 else 'failing differently: ' + str(sig1)}): " + what,
+                    {"kind": "field-multi", "multi": m2}))
     return out
